@@ -194,31 +194,37 @@ Fixpoint wf (f : pform) : bool :=
   end.
 
 (** Incomplete plain text: the input stops inside a string, inside a list or vector (after some
-    complete elements and possibly inside a further incomplete one), or right after a prefix. *)
+    complete elements, possibly inside a further incomplete one), or right after a prefix
+    (possibly followed by a further incomplete form). *)
 Inductive pctx :=
-| KStr (chars : list N)                              (* an opening quote and chars *)
-| KList (closerless : bool) (done : list pform) (inner : option pctx)   (* true: ( ..  false: [ .. *)
-| KQuote (inner : option pctx)                       (* ' *)
-| KDeref (inner : option pctx).                      (* @ *)
+| KStr (chars : list N)                                  (* an opening quote and chars *)
+| KCollEnd (paren : bool) (done : list pform)            (* ( or [ and complete elements *)
+| KCollIn (paren : bool) (done : list pform) (inner : pctx)
+| KQuoteEnd                                              (* the quote character *)
+| KQuoteIn (inner : pctx)
+| KDerefEnd                                              (* @ *)
+| KDerefIn (inner : pctx).
 
 Fixpoint render_ctx (k : pctx) : list N :=
-  let tail := fun (o : option pctx) => match o with Some i => render_ctx i | None => [] end in
   match k with
   | KStr c => 34 :: c
-  | KList paren done inner =>
+  | KCollEnd paren done => (if paren then 40 else 91) :: render_seq done
+  | KCollIn paren done inner =>
       (if paren then 40 else 91) ::
-      match done, inner with
-      | [], _ => tail inner
-      | _, None => render_seq done
-      | _, Some i => render_seq done ++ 32 :: render_ctx i
+      match done with
+      | [] => render_ctx inner
+      | _ => render_seq done ++ 32 :: render_ctx inner
       end
-  | KQuote inner => 39 :: tail inner
-  | KDeref inner => 64 :: tail inner
+  | KQuoteEnd => [39]
+  | KQuoteIn inner => 39 :: render_ctx inner
+  | KDerefEnd => [64]
+  | KDerefIn inner => 64 :: render_ctx inner
   end.
 Fixpoint wf_ctx (k : pctx) : bool :=
-  let sub := fun (o : option pctx) => match o with Some i => wf_ctx i | None => true end in
   match k with
   | KStr c => forallb (fun x => negb (x =? 34) && negb (x =? 92)) c
-  | KList _ done inner => forallb wf done && sub inner
-  | KQuote inner | KDeref inner => sub inner
+  | KCollEnd _ done => forallb wf done
+  | KCollIn _ done inner => forallb wf done && wf_ctx inner
+  | KQuoteEnd | KDerefEnd => true
+  | KQuoteIn inner | KDerefIn inner => wf_ctx inner
   end.
